@@ -580,6 +580,10 @@ func (e *Env) call(x *ECall) (Val, types.Type) {
 			return mkInt(fmt.Sprintf("(scap %s)", v.T)), lenTy
 		}
 		return e.fail("cap of %s", ty)
+	case "allocated":
+		// the reference existed when this state was taken (fresh allocations are distinct from it)
+		v, _ := arg(0)
+		return Val{T: fmt.Sprintf("(and (<= 0 %s) (<= %s %s))", v.T, v.T, t.get(e.st, "alloc"))}, tBool
 	case "base":
 		v, _ := arg(0)
 		return Val{T: fmt.Sprintf("(sbase %s)", v.T)}, tInt
